@@ -26,7 +26,7 @@ class C01(Check):
     pid = "C01"
     title = "Composition returns a sound abstraction of the exact composition"
     level_text = ("Lean theorems compose_sound_poly_any_sound_table (composition of polyhedral contracts is sound for every wiring, kept set, flag and every tactic order, "
-                  "for any tactic table sound on that order) and compose_sound_poly_partial (the real table over tactics 2, 5, 6), obtained by instantiating the generic "
+                  "for any tactic table sound on that order) and compose_sound_poly_partial (the real table over tactics 2, 4, 5, 6), obtained by instantiating the generic "
                   "algebra theorem (C05, interface code regenerated from the source) with the proved specs of the polyhedral primitives (C04 loop soundness, C07 simplify, "
                   "C03 refines); whole-operation correspondence with PolyhedralIoContract.compose_tactics (result contract at 1e-9, interface order, error kind); for tactics "
                   "1/3/4 soundness of each run is established by the exact certified judge.")
@@ -39,7 +39,7 @@ class C01(Check):
         "Lean 4.33 kernel; axioms ⊆ {propext, Classical.choice, Quot.sound}",
         "Model/Algebra.lean + generated Gen/Iface.lean, Model/Elim.lean, Model/Poly.lean tied to the code by this correspondence run",
         "HiGHS / sympy.solve are oracles (certificate-checked exact simplex; exact Gauss-Jordan)",
-        "tactics 1, 3, 4: modelled and compared, soundness judged per run (no theorem)",
+        "tactics 1, 3: modelled and compared, soundness judged per run (no theorem)",
     ]
     assumptions = ["floats denote exact rationals; numeric reading of the property (box 1000, 1e-4 relative, 1e-7 slack on negative hypotheses)"]
     min_branches = {"ok": 150, "IncompatibleArgsError": 20, "connected": 150, "w:feedback": 10, "w:cascade-rev": 10}
